@@ -18,15 +18,11 @@ variable {α : Type} [Scalar α]
 
 /-! ## small vector helpers (`ref_math.h` macros) -/
 
-/-- `ref_math_dot(a,b)` : `a[0]*b[0] + a[1]*b[1] + a[2]*b[2]` -/
-@[inline] def dot (a b : V3 α) : α := a.x *. b.x +. a.y *. b.y +. a.z *. b.z
+-- `ref_math_dot` and `ref_math_cross_product` are `Refine.Model.Geom.dot` / `cross` (same operation order)
 
 /-- componentwise `a[i] - b[i]` -/
 @[inline] def vsub (a b : V3 α) : V3 α := ⟨a.x -. b.x, a.y -. b.y, a.z -. b.z⟩
 
-/-- `ref_math_cross_product(v0,v1,product)` -/
-@[inline] def cross (a b : V3 α) : V3 α :=
-  ⟨a.y *. b.z -. a.z *. b.y, a.z *. b.x -. a.x *. b.z, a.x *. b.y -. a.y *. b.x⟩
 
 /-- the loop `d = 0.0; for i: d += pow(b[i] - a[i], 2); d = sqrt(d)` used by `ref_search_distance`
     (`a` = first slot, `b` = second slot) and, with `a` = node centre and `b` = query position, by
